@@ -37,8 +37,17 @@ def pPar : P Par := do
   | "K" => do let cs ← pInt; let s ← tok; pure (.chunk cs s.toList)
   | t => throw s!"par? {t}"
 
+/-- strand token of a grandchild: `+` / `-`, optionally followed by `c` (carries a CDS) / `p` (flagged primary);
+    the flags are facts about the real objects only — the abstract child carries `coding` itself -/
+def pGStrand : P Strand := do
+  let t ← tok
+  match t.toList with
+  | '+' :: rest => if rest.all (fun c => c = 'c' || c = 'p') then pure .plus else throw s!"strand? {t}"
+  | '-' :: rest => if rest.all (fun c => c = 'c' || c = 'p') then pure .minus else throw s!"strand? {t}"
+  | _ => throw s!"strand? {t}"
+
 def pGChild (ci j : Nat) : P GChild := do
-  let s ← pInt; let e ← pInt; let st ← pStrand
+  let s ← pInt; let e ← pInt; let st ← pGStrand
   pure ⟨s, e, st, 1000 + 100 * ci + j⟩
 
 def pChild (ci : Nat) : P Child := do
